@@ -206,7 +206,7 @@ class Gen:
             tps, ps, r, body = self.fun(d)
             names = self.distinct_names(len(ps) + 1)
             ps = [("p", n, p[2]) for n, p in zip(names[1:], ps)]
-            return ("method", pub, self.name(False), names[0] if names[0] != "_" else "this", self.hint(), (tps, ps, r, body))
+            return ("method", pub, self.name(False), names[0] if names[0] != "_" else "recv0", self.hint(), (tps, ps, r, body))
         if k == "test":
             return ("test", self.name(False), self.block(d))
         if k == "enum":
